@@ -2,6 +2,7 @@ SPECIFICATION Spec
 CONSTANTS
     Ids <- MCIds
     Modes <- MCModesAll
+    Times = {0, 1}
     MaxPoints = 3
     MaxCrashes = 1
     MaxTaskRestarts = 1
